@@ -50,8 +50,23 @@ func emit(tag string, v interface{}) {
 func watchdog(hangSec int) {
 	last := simrt.Progress.Load()
 	lastChange := time.Now()
+	run := simrt.RunSeq.Load()
+	runStart := time.Now()
 	for {
 		time.Sleep(250 * time.Millisecond)
+		if r := simrt.RunSeq.Load(); r != run {
+			run = r
+			runStart = time.Now()
+		}
+		// a single simulated run that keeps "making progress" but needs more than 12x the
+		// no-progress budget of real time (e.g. unbounded recursion through scheduling points)
+		if simrt.On && time.Since(runStart) > time.Duration(12*hangSec)*time.Second {
+			site, _ := simrt.CurrentSite.Load().(string)
+			buf := make([]byte, 1<<20)
+			buf = buf[:runtime.Stack(buf, true)]
+			emit("HANG", map[string]interface{}{"site": site, "stack": clip(hangStack(string(buf)), 6000), "kind": "run-wall-budget"})
+			os.Exit(3)
+		}
 		cur := simrt.Progress.Load()
 		if cur != last {
 			last = cur
